@@ -49,6 +49,53 @@ def package_ids(name):
     return _EXTRA[base][0] if base in _EXTRA else fx.PACKAGES[base]
 
 # ----------------------------------------------------------------------------------------------------------------
+# process-global interning caches of the equilibrium package (BubblePoint / DewPoint keyed by (chemicals, Gamma, Phi, PCF);
+# activity-coefficient / fugacity-coefficient objects keyed by the chemical tuple).  They are cleared before every
+# execution (reset_globals) so that what an execution sees never depends on which configurations the same worker process
+# ran before; sequences that NEED an earlier object of another package are explicit actions ('pkg') of a history layer,
+# and the cache contents are part of the canonical state.
+
+def _intern_dicts():
+    import sys, inspect
+    fx.tmo()
+    out = []
+    seen = set()
+    for mname in ('bubble_point', 'dew_point', 'activity_coefficients', 'fugacity_coefficients', 'poyinting_correction_factors'):
+        mod = sys.modules.get('thermosteam.equilibrium.' + mname)
+        if mod is None: continue
+        for name, cls in inspect.getmembers(mod, inspect.isclass):
+            for attr in ('_cached', 'cache'):
+                d = cls.__dict__.get(attr)
+                if isinstance(d, dict) and id(d) not in seen:
+                    seen.add(id(d)); out.append((cls.__name__, d))
+    return out
+
+def clear_interning():
+    for name, d in _intern_dicts(): d.clear()
+
+def interning_digest():
+    out = []
+    for name, d in _intern_dicts():
+        for k in d:
+            if isinstance(k, tuple) and k and isinstance(k[0], tuple):      # (chemicals, Gamma, Phi, PCF)
+                out.append((name, tuple(c.ID for c in k[0])) + tuple(getattr(x, '__name__', repr(x)) for x in k[1:]))
+            elif isinstance(k, tuple):
+                out.append((name, tuple(getattr(c, 'ID', repr(c)) for c in k)))
+            else:
+                out.append((name, repr(k)))
+    return tuple(sorted(out))
+
+def _fresh_instance(cls, chems):
+    """an instance that is NOT the library's interned one (the reference must not share a possibly stale object)"""
+    saved = [(d, dict(d)) for name, d in _intern_dicts()]
+    try:
+        for d, _ in saved: d.clear()
+        return cls(chems)
+    finally:
+        for d, old in saved:
+            d.clear(); d.update(old)
+
+# ----------------------------------------------------------------------------------------------------------------
 # configurations  (pkg, comp=(IDs...), mag, dist)
 
 MAGS = ('one', 'lo0', 'hi0', 'lo-1', 'hi-1', 'milli', 'kilo')
@@ -194,7 +241,7 @@ class RefFlash:
     def __init__(self, th, idx):
         chems = [th.chemicals.tuple[i] for i in idx]
         self.th = th; self.idx = tuple(idx); self.chems = chems; self.n = len(chems)
-        self.gamma = th.Gamma(chems); self.phi = th.Phi(chems); self.pcf = th.PCF(chems)
+        self.gamma = _fresh_instance(th.Gamma, chems); self.phi = _fresh_instance(th.Phi, chems); self.pcf = _fresh_instance(th.PCF, chems)
 
     def Psats(self, T): return np.array([float(c.Psat(T)) for c in self.chems])
 
@@ -397,6 +444,15 @@ def resolve_kwargs(st, action):
     assert kind == 'vle'
     kw = {}
     info = {}
+    if pair == 'Tp':
+        vol, light, heavy, tot = classify(st)
+        z = np.array([tot[i] for i in vol]); z = z / z.sum()
+        ref = ref_for(st.th, vol)
+        T = float(v1)
+        with np.errstate(all='ignore'):
+            if len(vol) > 1: Pb = ref.bubble_P(z, T)[0]; Pd = ref.dew_P(z, T)[0]
+            else: Pb = Pd = float(ref.Psats(T)[0])
+        return dict(T=T, P=float(Pd + float(v2) * (Pb - Pd))), dict(P_bubble=Pb, P_dew=Pd, frac=float(v2))
     for name, v in zip(pair, (v1, v2)):
         if name in 'TPV': kw[name] = float(v)
     for name, v in zip(pair, (v1, v2)):
@@ -417,6 +473,7 @@ def run_call(st, action):
     kw = {}; info = {}
     vol, light, heavy, tot = classify(st)
     cls = dict(nvol=min(len(vol), 3), light=light, heavy=heavy)
+    s_in = s
     try:
         if kind == 'vle':
             kw, info = resolve_kwargs(st, action)
@@ -435,6 +492,24 @@ def run_call(st, action):
             else: raise ValueError(action)
         elif kind == 'vlle':
             s.vlle(T=float(action[2]), P=float(action[3]))
+        elif kind == 'refill':
+            # the user empties the stream and fills it with another set of the package's chemicals (the cached solver objects stay)
+            IDs, flows = list(action[1]), [float(x) for x in action[2]]
+            s.empty()
+            if isinstance(s, fx.tmo().MultiStream): s.imol['l', IDs] = flows
+            else: s.imol[IDs] = flows
+        elif kind == 'pkg':
+            # same chemicals (same Chemical objects), other property package: a new stream in the SAME execution, so the
+            # process-global interned BubblePoint / DewPoint / Gamma objects created by the earlier calls are still there
+            th2 = package(action[1])
+            d = dense_by_phase(s)
+            IDs_old = s.chemicals.IDs
+            s2 = fx.tmo().MultiStream(None, phases=('g', 'l'), T=float(s.T), P=float(s.P), thermo=th2)
+            for p_, a_ in d.items():
+                if not a_.any(): continue
+                nz = [(IDs_old[i], float(x)) for i, x in enumerate(a_) if x]
+                s2.imol['l' if p_ not in ('g', 'l') else p_, [i for i, x in nz]] = [x for i, x in nz]
+            st.s = s = s2; st.th = th2; st.extra['pkg'] = action[1]
         else:
             raise ValueError(action)
     except (Violation, Rejected):
@@ -442,7 +517,8 @@ def run_call(st, action):
     except Exception as e:
         name = type(e).__name__
         st.s = s
-        if name in PROGRAMMING_ERRORS or isinstance(e, (TypeError, IndexError, AttributeError, KeyError, NameError)):
+        shape_error = isinstance(e, ValueError) and any(w in str(e) for w in ('broadcast', 'shape', 'dimension', 'size'))
+        if name in PROGRAMMING_ERRORS or isinstance(e, (TypeError, IndexError, AttributeError, KeyError, NameError)) or shape_error:
             import traceback
             tb = traceback.extract_tb(e.__traceback__)
             where = next((f'{f.filename.split("/thermosteam/")[-1]}:{f.name}' for f in reversed(tb) if '/thermosteam/' in f.filename), '?')
@@ -451,6 +527,9 @@ def run_call(st, action):
                             detail=dict(kwargs={k: (v.tolist() if hasattr(v, 'tolist') else v) for k, v in kw.items()}))
         raise Rejected(f'{kind}:{action[1]}:{name}', cut=True)
     st.n_calls += 1
+    if kind in ('refill', 'pkg'):
+        vol, light, heavy, tot = classify(st)
+        cls = dict(nvol=min(len(vol), 3), light=light, heavy=heavy)
     d = dense_by_phase(s)
     g = d.get('g'); l = d.get('l')
     vg = float(sum(g[i] for i in vol)) if g is not None else 0.
@@ -486,7 +565,8 @@ class FlashSystem(System):
     def _describe_pkgs(self):
         try: return sorted({c[0] for c in self._enum_configs(self, 'thorough', 0)})
         except Exception: return []
-    def reset_globals(self): fx.reset_globals()
+    def reset_globals(self):
+        fx.reset_globals(); clear_interning()
     def depth(self, tier): return self._dq if tier == 'quick' else self._dt
     def time_cap(self, tier): return self._tq if tier == 'quick' else self._tt
     def describe(self, tier):
@@ -510,7 +590,7 @@ class FlashSystem(System):
         return list(self._enum_actions(self, st))
 
     def canon(self, st):
-        return (st.config, full_digest(st.s))
+        return (st.config, st.extra.get('pkg'), st.extra.get('last_kind'), full_digest(st.s), interning_digest())
 
     def step(self, st, action):
         before = dense_by_phase(st.s)
